@@ -917,6 +917,10 @@ func (j *judge) judgeResponse(r *ReqRec) {
 			}
 			j.add("C04", "O1", key, "%s answered at tick %d with promise %s still pending although its timeout %d has been reached", who, r.ResTick-Base, op.p.Id, op.p.Timeout-Base)
 		}
+		if op.p.State == promise.Timedout && (op.p.CompletedOn == nil || *op.p.CompletedOn != op.p.Timeout || len(op.p.Value.Data) != 0 || len(op.p.Value.Headers) != 0 || op.p.IdempotencyKeyForComplete != nil) {
+			// what every response shows of a timed-out promise: completion time equal to its timeout, empty value, no key
+			j.add("C04", "O3", "", "%s reports the timed-out promise %s with completedOn %v (timeout %d), value %v, completion key %v: a time-out completes at exactly the timeout, with an empty value and no key", who, op.p.Id, deref(op.p.CompletedOn), op.p.Timeout, op.p.Value, strOrNil(keyStr(op.p.IdempotencyKeyForComplete)))
+		}
 		if op.p.State == promise.Timedout || (op.p.CompletedOn != nil && *op.p.CompletedOn == op.p.Timeout) {
 			if op.p.Timeout > r.ResTick {
 				j.add("C04", "O2", "", "%s answered at tick %d with promise %s timed out before its timeout %d", who, r.ResTick-Base, op.p.Id, op.p.Timeout-Base)
@@ -1582,4 +1586,11 @@ func (j *judge) respReal(r *ReqRec) {
 	case t_api.CreateSubscription:
 		cb(res.CreateSubscription.Callback)
 	}
+}
+
+func strOrNil(p *string) any {
+	if p == nil {
+		return nil
+	}
+	return *p
 }
